@@ -12,8 +12,14 @@ def check(tier, seed):
     d = Decision("C05", tier, seed)
     specs = (specs_evals(tier, algs=("nonhermitian",)) + specs_wiring(tier, algs=("nonhermitian",)) + specs_product(tier) + specs_index(tier)
              + specs_solver(tier) + specs_masks(tier))
+    # explicit (R, L) biorthogonal bases and implicit mode: projected Hamiltonian, complement projector, direct solver (both orientations)
+    from .format_props import specs_projection
+    from .implicit_props import specs_direct
+    t = 60000 if tier == "thorough" else 10000
+    specs += specs_projection(tier) + [("contracts.linalg_projector", "unit_projector", {"variant": v, "timeout_ms": t}) for v in ("left-none", "left-same", "left-other")]
+    specs += specs_direct(tier)
     d.add_units(fold_canaries(run_units(specs)))
-    d.add_lean(LEAN + ["PV.Inst.filt", "PV.Inst.blocks", "PV.Inst.unperturbed", "PV.Inst.gapped", "PV.Inst.trivNonHermEqs",
+    d.add_lean(LEAN + ["PV.Direct.greens_solves", "PV.Direct.constrained_injective", "PV.natural_nh"] + ["PV.Inst.filt", "PV.Inst.blocks", "PV.Inst.unperturbed", "PV.Inst.gapped", "PV.Inst.trivNonHermEqs",
                        "PV.Model.filtered", "PV.Model.blocks", "PV.Model.liftNH", "PV.MatrixModel.coeffUnperturbedNH", "PV.MatrixModel.nh_theorems"])
     d.add_callsite_witness("callsite:nonhermitian/H0-commutes-with-kept-part-of-U'", "bd_battery.py", "nh_finding",
                            "hypothesis of PV.NH.X_comm / main_similarity: H_0 commutes with the kept part of U'. block_diagonalize(hermitian=False) "
@@ -26,7 +32,9 @@ def check(tier, seed):
     d.assumptions += ["Hermitian-limit clause (PV.C05_hermitian_limit) and uniqueness (PV.nh_unique) use Gapped(H0) (energies of eliminated pairs differ: mask / solver obligations of this run) "
                       "and, for the non-Hermitian side, the same commutation hypothesis as the similarity theorems"]
     d.not_decided += [
-                      "explicit (R, L) biorthogonal bases: through the projection contract of C14 (not under deductive contract here)"]
+                      "explicit (R, L) biorthogonal bases: the projection contract (blocks L_i^dagger A R_j, complement projector 1 - R L^dagger under every operator "
+                      "operation, direct solver with both orientations) is under contract here; that the projected problem is again an instance of the setting is the naturality "
+                      "theorem PV.natural_nh; numerical conditioning of a non-unitary eigenbasis is not decided"]
     d.explanation = ("Inverse relations (both sides, by contraction) and the gauge are machine-checked in Lean from the equations extracted from "
                      "algorithms.nonhermitian without further hypotheses.  X = [H_S, U'] and U_inv H U = H_tilde are machine-checked under the hypothesis that "
                      "H_0 commutes with the kept part of U' - exactly what the code silently assumes; that hypothesis fails on the unchanged tree for kept blocks "
@@ -34,4 +42,5 @@ def check(tier, seed):
                      "on any other violation.  Hermitian-limit clause: machine-checked (PV.C05_hermitian_limit) - both algorithms' outputs are block-diagonalising transformations in the "
                      "gauge Sel(U - U_inv) = 0, which is unique (PV.nh_unique).")
     d.run_battery("bd_battery.py", ["nonherm"], "inputs on which the shipped algorithm is exact (block-degenerate H_0 or all blocks fully diagonalized): <= 3 blocks, <= 2 parameters, order <= 3, complex energies")
+    d.run_battery("rel_battery.py", ["implicit"], "implicit mode against the explicit computation, incl. non-Hermitian problems with biorthogonal (R, L) bases, direct solver; sizes 8-9, order 3")
     return d.finish(level="proof", trusted_base=["leanalg/lean/PV/*.lean", "leanalg/genlean.py", "leanalg/extract.py", "contracts/*.py"])
